@@ -1,0 +1,973 @@
+	.file	"test_float.c"
+	.text
+.Ltext0:
+	.file 0 "/repo/aldor/aldor/src" "test/test_float.c"
+	.section	.rodata
+.LC0:
+	.string	"testFloatSizes"
+	.text
+	.globl	floatTestSuite
+	.type	floatTestSuite, @function
+floatTestSuite:
+.LFB0:
+	.file 1 "test/test_float.c"
+	.loc 1 9 1
+	.cfi_startproc
+	pushq	%rbp
+	.cfi_def_cfa_offset 16
+	.cfi_offset 6, -16
+	movq	%rsp, %rbp
+	.cfi_def_cfa_register 6
+	.loc 1 10 2
+	call	osInit@PLT
+	.loc 1 11 2
+	call	dbInit@PLT
+	.loc 1 12 2
+	leaq	testFloatSizes(%rip), %rax
+	movq	%rax, %rsi
+	leaq	.LC0(%rip), %rax
+	movq	%rax, %rdi
+	call	showTest@PLT
+	.loc 1 13 2
+	call	dbFini@PLT
+	.loc 1 14 1
+	nop
+	popq	%rbp
+	.cfi_def_cfa 7, 8
+	ret
+	.cfi_endproc
+.LFE0:
+	.size	floatTestSuite, .-floatTestSuite
+	.section	.rodata
+.LC1:
+	.string	"sizeof float: %lu\n"
+.LC2:
+	.string	"sizeof dfloat: %lu\n"
+.LC3:
+	.string	"float"
+	.text
+	.type	testFloatSizes, @function
+testFloatSizes:
+.LFB1:
+	.loc 1 18 1
+	.cfi_startproc
+	pushq	%rbp
+	.cfi_def_cfa_offset 16
+	.cfi_offset 6, -16
+	movq	%rsp, %rbp
+	.cfi_def_cfa_register 6
+	.loc 1 19 2
+	movq	dbOut(%rip), %rax
+	movl	$4, %edx
+	leaq	.LC1(%rip), %rcx
+	movq	%rcx, %rsi
+	movq	%rax, %rdi
+	movl	$0, %eax
+	call	fprintf@PLT
+	.loc 1 20 2
+	movq	dbOut(%rip), %rax
+	movl	$8, %edx
+	leaq	.LC2(%rip), %rcx
+	movq	%rcx, %rsi
+	movq	%rax, %rdi
+	movl	$0, %eax
+	call	fprintf@PLT
+	.loc 1 22 2
+	movl	$4, %edx
+	movl	$4, %esi
+	leaq	.LC3(%rip), %rax
+	movq	%rax, %rdi
+	call	testIntEqual@PLT
+	.loc 1 23 2
+	movl	$8, %edx
+	movl	$8, %esi
+	leaq	.LC3(%rip), %rax
+	movq	%rax, %rdi
+	call	testIntEqual@PLT
+	.loc 1 25 1
+	nop
+	popq	%rbp
+	.cfi_def_cfa 7, 8
+	ret
+	.cfi_endproc
+.LFE1:
+	.size	testFloatSizes, .-testFloatSizes
+.Letext0:
+	.file 2 "/usr/include/x86_64-linux-gnu/bits/types.h"
+	.file 3 "/usr/lib/gcc/x86_64-linux-gnu/12/include/stddef.h"
+	.file 4 "/usr/include/x86_64-linux-gnu/bits/types/struct_FILE.h"
+	.file 5 "/usr/include/x86_64-linux-gnu/bits/types/FILE.h"
+	.file 6 "./cport.h"
+	.file 7 "test/testlib.h"
+	.file 8 "./debug.h"
+	.file 9 "./opsys.h"
+	.file 10 "/usr/include/stdio.h"
+	.section	.debug_info,"",@progbits
+.Ldebug_info0:
+	.long	0x33d
+	.value	0x5
+	.byte	0x1
+	.byte	0x8
+	.long	.Ldebug_abbrev0
+	.uleb128 0xc
+	.long	.LASF55
+	.byte	0xc
+	.long	.LASF0
+	.long	.LASF1
+	.quad	.Ltext0
+	.quad	.Letext0-.Ltext0
+	.long	.Ldebug_line0
+	.uleb128 0xd
+	.byte	0x4
+	.byte	0x5
+	.string	"int"
+	.uleb128 0x2
+	.byte	0x1
+	.byte	0x8
+	.long	.LASF2
+	.uleb128 0x2
+	.byte	0x2
+	.byte	0x7
+	.long	.LASF3
+	.uleb128 0x2
+	.byte	0x4
+	.byte	0x7
+	.long	.LASF4
+	.uleb128 0x2
+	.byte	0x8
+	.byte	0x7
+	.long	.LASF5
+	.uleb128 0x2
+	.byte	0x1
+	.byte	0x6
+	.long	.LASF6
+	.uleb128 0x2
+	.byte	0x2
+	.byte	0x5
+	.long	.LASF7
+	.uleb128 0x2
+	.byte	0x8
+	.byte	0x5
+	.long	.LASF8
+	.uleb128 0x5
+	.long	.LASF9
+	.byte	0x2
+	.byte	0x98
+	.byte	0x12
+	.long	0x5f
+	.uleb128 0x5
+	.long	.LASF10
+	.byte	0x2
+	.byte	0x99
+	.byte	0x12
+	.long	0x5f
+	.uleb128 0xe
+	.byte	0x8
+	.uleb128 0x3
+	.long	0x85
+	.uleb128 0x2
+	.byte	0x1
+	.byte	0x6
+	.long	.LASF11
+	.uleb128 0xf
+	.long	0x85
+	.uleb128 0x2
+	.byte	0x4
+	.byte	0x4
+	.long	.LASF12
+	.uleb128 0x2
+	.byte	0x8
+	.byte	0x4
+	.long	.LASF13
+	.uleb128 0x5
+	.long	.LASF14
+	.byte	0x3
+	.byte	0xd6
+	.byte	0x1b
+	.long	0x4a
+	.uleb128 0x10
+	.long	.LASF56
+	.byte	0xd8
+	.byte	0x4
+	.byte	0x31
+	.byte	0x8
+	.long	0x215
+	.uleb128 0x1
+	.long	.LASF15
+	.byte	0x33
+	.byte	0x7
+	.long	0x2e
+	.byte	0
+	.uleb128 0x1
+	.long	.LASF16
+	.byte	0x36
+	.byte	0x9
+	.long	0x80
+	.byte	0x8
+	.uleb128 0x1
+	.long	.LASF17
+	.byte	0x37
+	.byte	0x9
+	.long	0x80
+	.byte	0x10
+	.uleb128 0x1
+	.long	.LASF18
+	.byte	0x38
+	.byte	0x9
+	.long	0x80
+	.byte	0x18
+	.uleb128 0x1
+	.long	.LASF19
+	.byte	0x39
+	.byte	0x9
+	.long	0x80
+	.byte	0x20
+	.uleb128 0x1
+	.long	.LASF20
+	.byte	0x3a
+	.byte	0x9
+	.long	0x80
+	.byte	0x28
+	.uleb128 0x1
+	.long	.LASF21
+	.byte	0x3b
+	.byte	0x9
+	.long	0x80
+	.byte	0x30
+	.uleb128 0x1
+	.long	.LASF22
+	.byte	0x3c
+	.byte	0x9
+	.long	0x80
+	.byte	0x38
+	.uleb128 0x1
+	.long	.LASF23
+	.byte	0x3d
+	.byte	0x9
+	.long	0x80
+	.byte	0x40
+	.uleb128 0x1
+	.long	.LASF24
+	.byte	0x40
+	.byte	0x9
+	.long	0x80
+	.byte	0x48
+	.uleb128 0x1
+	.long	.LASF25
+	.byte	0x41
+	.byte	0x9
+	.long	0x80
+	.byte	0x50
+	.uleb128 0x1
+	.long	.LASF26
+	.byte	0x42
+	.byte	0x9
+	.long	0x80
+	.byte	0x58
+	.uleb128 0x1
+	.long	.LASF27
+	.byte	0x44
+	.byte	0x16
+	.long	0x22e
+	.byte	0x60
+	.uleb128 0x1
+	.long	.LASF28
+	.byte	0x46
+	.byte	0x14
+	.long	0x233
+	.byte	0x68
+	.uleb128 0x1
+	.long	.LASF29
+	.byte	0x48
+	.byte	0x7
+	.long	0x2e
+	.byte	0x70
+	.uleb128 0x1
+	.long	.LASF30
+	.byte	0x49
+	.byte	0x7
+	.long	0x2e
+	.byte	0x74
+	.uleb128 0x1
+	.long	.LASF31
+	.byte	0x4a
+	.byte	0xb
+	.long	0x66
+	.byte	0x78
+	.uleb128 0x1
+	.long	.LASF32
+	.byte	0x4d
+	.byte	0x12
+	.long	0x3c
+	.byte	0x80
+	.uleb128 0x1
+	.long	.LASF33
+	.byte	0x4e
+	.byte	0xf
+	.long	0x51
+	.byte	0x82
+	.uleb128 0x1
+	.long	.LASF34
+	.byte	0x4f
+	.byte	0x8
+	.long	0x238
+	.byte	0x83
+	.uleb128 0x1
+	.long	.LASF35
+	.byte	0x51
+	.byte	0xf
+	.long	0x248
+	.byte	0x88
+	.uleb128 0x1
+	.long	.LASF36
+	.byte	0x59
+	.byte	0xd
+	.long	0x72
+	.byte	0x90
+	.uleb128 0x1
+	.long	.LASF37
+	.byte	0x5b
+	.byte	0x17
+	.long	0x252
+	.byte	0x98
+	.uleb128 0x1
+	.long	.LASF38
+	.byte	0x5c
+	.byte	0x19
+	.long	0x25c
+	.byte	0xa0
+	.uleb128 0x1
+	.long	.LASF39
+	.byte	0x5d
+	.byte	0x14
+	.long	0x233
+	.byte	0xa8
+	.uleb128 0x1
+	.long	.LASF40
+	.byte	0x5e
+	.byte	0x9
+	.long	0x7e
+	.byte	0xb0
+	.uleb128 0x1
+	.long	.LASF41
+	.byte	0x5f
+	.byte	0xa
+	.long	0x9f
+	.byte	0xb8
+	.uleb128 0x1
+	.long	.LASF42
+	.byte	0x60
+	.byte	0x7
+	.long	0x2e
+	.byte	0xc0
+	.uleb128 0x1
+	.long	.LASF43
+	.byte	0x62
+	.byte	0x8
+	.long	0x261
+	.byte	0xc4
+	.byte	0
+	.uleb128 0x5
+	.long	.LASF44
+	.byte	0x5
+	.byte	0x7
+	.byte	0x19
+	.long	0xab
+	.uleb128 0x11
+	.long	.LASF57
+	.byte	0x4
+	.byte	0x2b
+	.byte	0xe
+	.uleb128 0x6
+	.long	.LASF45
+	.uleb128 0x3
+	.long	0x229
+	.uleb128 0x3
+	.long	0xab
+	.uleb128 0x8
+	.long	0x85
+	.long	0x248
+	.uleb128 0x9
+	.long	0x4a
+	.byte	0
+	.byte	0
+	.uleb128 0x3
+	.long	0x221
+	.uleb128 0x6
+	.long	.LASF46
+	.uleb128 0x3
+	.long	0x24d
+	.uleb128 0x6
+	.long	.LASF47
+	.uleb128 0x3
+	.long	0x257
+	.uleb128 0x8
+	.long	0x85
+	.long	0x271
+	.uleb128 0x9
+	.long	0x4a
+	.byte	0x13
+	.byte	0
+	.uleb128 0x3
+	.long	0x215
+	.uleb128 0xa
+	.long	0x271
+	.uleb128 0x2
+	.byte	0x8
+	.byte	0x5
+	.long	.LASF48
+	.uleb128 0x3
+	.long	0x8c
+	.uleb128 0xa
+	.long	0x282
+	.uleb128 0x12
+	.long	.LASF49
+	.byte	0x6
+	.value	0x16a
+	.byte	0xf
+	.long	0x80
+	.uleb128 0x13
+	.long	.LASF58
+	.byte	0x8
+	.byte	0x27
+	.byte	0xe
+	.long	0x271
+	.uleb128 0xb
+	.long	.LASF50
+	.byte	0x8
+	.long	0x2bf
+	.uleb128 0x4
+	.long	0x28c
+	.uleb128 0x4
+	.long	0x2e
+	.uleb128 0x4
+	.long	0x2e
+	.byte	0
+	.uleb128 0x14
+	.long	.LASF59
+	.byte	0xa
+	.value	0x15e
+	.byte	0xc
+	.long	0x2e
+	.long	0x2dc
+	.uleb128 0x4
+	.long	0x276
+	.uleb128 0x4
+	.long	0x287
+	.uleb128 0x15
+	.byte	0
+	.uleb128 0x7
+	.long	.LASF52
+	.byte	0x8
+	.byte	0x2a
+	.uleb128 0xb
+	.long	.LASF51
+	.byte	0x15
+	.long	0x2f8
+	.uleb128 0x4
+	.long	0x80
+	.uleb128 0x4
+	.long	0x2f8
+	.byte	0
+	.uleb128 0x3
+	.long	0x2fd
+	.uleb128 0x16
+	.uleb128 0x7
+	.long	.LASF53
+	.byte	0x8
+	.byte	0x29
+	.uleb128 0x7
+	.long	.LASF54
+	.byte	0x9
+	.byte	0x15
+	.uleb128 0x17
+	.long	.LASF60
+	.byte	0x1
+	.byte	0x11
+	.byte	0x1
+	.quad	.LFB1
+	.quad	.LFE1-.LFB1
+	.uleb128 0x1
+	.byte	0x9c
+	.uleb128 0x18
+	.long	.LASF61
+	.byte	0x1
+	.byte	0x8
+	.byte	0x1
+	.quad	.LFB0
+	.quad	.LFE0-.LFB0
+	.uleb128 0x1
+	.byte	0x9c
+	.byte	0
+	.section	.debug_abbrev,"",@progbits
+.Ldebug_abbrev0:
+	.uleb128 0x1
+	.uleb128 0xd
+	.byte	0
+	.uleb128 0x3
+	.uleb128 0xe
+	.uleb128 0x3a
+	.uleb128 0x21
+	.sleb128 4
+	.uleb128 0x3b
+	.uleb128 0xb
+	.uleb128 0x39
+	.uleb128 0xb
+	.uleb128 0x49
+	.uleb128 0x13
+	.uleb128 0x38
+	.uleb128 0xb
+	.byte	0
+	.byte	0
+	.uleb128 0x2
+	.uleb128 0x24
+	.byte	0
+	.uleb128 0xb
+	.uleb128 0xb
+	.uleb128 0x3e
+	.uleb128 0xb
+	.uleb128 0x3
+	.uleb128 0xe
+	.byte	0
+	.byte	0
+	.uleb128 0x3
+	.uleb128 0xf
+	.byte	0
+	.uleb128 0xb
+	.uleb128 0x21
+	.sleb128 8
+	.uleb128 0x49
+	.uleb128 0x13
+	.byte	0
+	.byte	0
+	.uleb128 0x4
+	.uleb128 0x5
+	.byte	0
+	.uleb128 0x49
+	.uleb128 0x13
+	.byte	0
+	.byte	0
+	.uleb128 0x5
+	.uleb128 0x16
+	.byte	0
+	.uleb128 0x3
+	.uleb128 0xe
+	.uleb128 0x3a
+	.uleb128 0xb
+	.uleb128 0x3b
+	.uleb128 0xb
+	.uleb128 0x39
+	.uleb128 0xb
+	.uleb128 0x49
+	.uleb128 0x13
+	.byte	0
+	.byte	0
+	.uleb128 0x6
+	.uleb128 0x13
+	.byte	0
+	.uleb128 0x3
+	.uleb128 0xe
+	.uleb128 0x3c
+	.uleb128 0x19
+	.byte	0
+	.byte	0
+	.uleb128 0x7
+	.uleb128 0x2e
+	.byte	0
+	.uleb128 0x3f
+	.uleb128 0x19
+	.uleb128 0x3
+	.uleb128 0xe
+	.uleb128 0x3a
+	.uleb128 0xb
+	.uleb128 0x3b
+	.uleb128 0xb
+	.uleb128 0x39
+	.uleb128 0x21
+	.sleb128 13
+	.uleb128 0x27
+	.uleb128 0x19
+	.uleb128 0x3c
+	.uleb128 0x19
+	.byte	0
+	.byte	0
+	.uleb128 0x8
+	.uleb128 0x1
+	.byte	0x1
+	.uleb128 0x49
+	.uleb128 0x13
+	.uleb128 0x1
+	.uleb128 0x13
+	.byte	0
+	.byte	0
+	.uleb128 0x9
+	.uleb128 0x21
+	.byte	0
+	.uleb128 0x49
+	.uleb128 0x13
+	.uleb128 0x2f
+	.uleb128 0xb
+	.byte	0
+	.byte	0
+	.uleb128 0xa
+	.uleb128 0x37
+	.byte	0
+	.uleb128 0x49
+	.uleb128 0x13
+	.byte	0
+	.byte	0
+	.uleb128 0xb
+	.uleb128 0x2e
+	.byte	0x1
+	.uleb128 0x3f
+	.uleb128 0x19
+	.uleb128 0x3
+	.uleb128 0xe
+	.uleb128 0x3a
+	.uleb128 0x21
+	.sleb128 7
+	.uleb128 0x3b
+	.uleb128 0xb
+	.uleb128 0x39
+	.uleb128 0x21
+	.sleb128 6
+	.uleb128 0x27
+	.uleb128 0x19
+	.uleb128 0x3c
+	.uleb128 0x19
+	.uleb128 0x1
+	.uleb128 0x13
+	.byte	0
+	.byte	0
+	.uleb128 0xc
+	.uleb128 0x11
+	.byte	0x1
+	.uleb128 0x25
+	.uleb128 0xe
+	.uleb128 0x13
+	.uleb128 0xb
+	.uleb128 0x3
+	.uleb128 0x1f
+	.uleb128 0x1b
+	.uleb128 0x1f
+	.uleb128 0x11
+	.uleb128 0x1
+	.uleb128 0x12
+	.uleb128 0x7
+	.uleb128 0x10
+	.uleb128 0x17
+	.byte	0
+	.byte	0
+	.uleb128 0xd
+	.uleb128 0x24
+	.byte	0
+	.uleb128 0xb
+	.uleb128 0xb
+	.uleb128 0x3e
+	.uleb128 0xb
+	.uleb128 0x3
+	.uleb128 0x8
+	.byte	0
+	.byte	0
+	.uleb128 0xe
+	.uleb128 0xf
+	.byte	0
+	.uleb128 0xb
+	.uleb128 0xb
+	.byte	0
+	.byte	0
+	.uleb128 0xf
+	.uleb128 0x26
+	.byte	0
+	.uleb128 0x49
+	.uleb128 0x13
+	.byte	0
+	.byte	0
+	.uleb128 0x10
+	.uleb128 0x13
+	.byte	0x1
+	.uleb128 0x3
+	.uleb128 0xe
+	.uleb128 0xb
+	.uleb128 0xb
+	.uleb128 0x3a
+	.uleb128 0xb
+	.uleb128 0x3b
+	.uleb128 0xb
+	.uleb128 0x39
+	.uleb128 0xb
+	.uleb128 0x1
+	.uleb128 0x13
+	.byte	0
+	.byte	0
+	.uleb128 0x11
+	.uleb128 0x16
+	.byte	0
+	.uleb128 0x3
+	.uleb128 0xe
+	.uleb128 0x3a
+	.uleb128 0xb
+	.uleb128 0x3b
+	.uleb128 0xb
+	.uleb128 0x39
+	.uleb128 0xb
+	.byte	0
+	.byte	0
+	.uleb128 0x12
+	.uleb128 0x16
+	.byte	0
+	.uleb128 0x3
+	.uleb128 0xe
+	.uleb128 0x3a
+	.uleb128 0xb
+	.uleb128 0x3b
+	.uleb128 0x5
+	.uleb128 0x39
+	.uleb128 0xb
+	.uleb128 0x49
+	.uleb128 0x13
+	.byte	0
+	.byte	0
+	.uleb128 0x13
+	.uleb128 0x34
+	.byte	0
+	.uleb128 0x3
+	.uleb128 0xe
+	.uleb128 0x3a
+	.uleb128 0xb
+	.uleb128 0x3b
+	.uleb128 0xb
+	.uleb128 0x39
+	.uleb128 0xb
+	.uleb128 0x49
+	.uleb128 0x13
+	.uleb128 0x3f
+	.uleb128 0x19
+	.uleb128 0x3c
+	.uleb128 0x19
+	.byte	0
+	.byte	0
+	.uleb128 0x14
+	.uleb128 0x2e
+	.byte	0x1
+	.uleb128 0x3f
+	.uleb128 0x19
+	.uleb128 0x3
+	.uleb128 0xe
+	.uleb128 0x3a
+	.uleb128 0xb
+	.uleb128 0x3b
+	.uleb128 0x5
+	.uleb128 0x39
+	.uleb128 0xb
+	.uleb128 0x27
+	.uleb128 0x19
+	.uleb128 0x49
+	.uleb128 0x13
+	.uleb128 0x3c
+	.uleb128 0x19
+	.uleb128 0x1
+	.uleb128 0x13
+	.byte	0
+	.byte	0
+	.uleb128 0x15
+	.uleb128 0x18
+	.byte	0
+	.byte	0
+	.byte	0
+	.uleb128 0x16
+	.uleb128 0x15
+	.byte	0
+	.uleb128 0x27
+	.uleb128 0x19
+	.byte	0
+	.byte	0
+	.uleb128 0x17
+	.uleb128 0x2e
+	.byte	0
+	.uleb128 0x3
+	.uleb128 0xe
+	.uleb128 0x3a
+	.uleb128 0xb
+	.uleb128 0x3b
+	.uleb128 0xb
+	.uleb128 0x39
+	.uleb128 0xb
+	.uleb128 0x27
+	.uleb128 0x19
+	.uleb128 0x11
+	.uleb128 0x1
+	.uleb128 0x12
+	.uleb128 0x7
+	.uleb128 0x40
+	.uleb128 0x18
+	.uleb128 0x7c
+	.uleb128 0x19
+	.byte	0
+	.byte	0
+	.uleb128 0x18
+	.uleb128 0x2e
+	.byte	0
+	.uleb128 0x3f
+	.uleb128 0x19
+	.uleb128 0x3
+	.uleb128 0xe
+	.uleb128 0x3a
+	.uleb128 0xb
+	.uleb128 0x3b
+	.uleb128 0xb
+	.uleb128 0x39
+	.uleb128 0xb
+	.uleb128 0x11
+	.uleb128 0x1
+	.uleb128 0x12
+	.uleb128 0x7
+	.uleb128 0x40
+	.uleb128 0x18
+	.uleb128 0x7c
+	.uleb128 0x19
+	.byte	0
+	.byte	0
+	.byte	0
+	.section	.debug_aranges,"",@progbits
+	.long	0x2c
+	.value	0x2
+	.long	.Ldebug_info0
+	.byte	0x8
+	.byte	0
+	.value	0
+	.value	0
+	.quad	.Ltext0
+	.quad	.Letext0-.Ltext0
+	.quad	0
+	.quad	0
+	.section	.debug_line,"",@progbits
+.Ldebug_line0:
+	.section	.debug_str,"MS",@progbits,1
+.LASF10:
+	.string	"__off64_t"
+.LASF17:
+	.string	"_IO_read_end"
+.LASF14:
+	.string	"size_t"
+.LASF56:
+	.string	"_IO_FILE"
+.LASF19:
+	.string	"_IO_write_base"
+.LASF23:
+	.string	"_IO_buf_end"
+.LASF16:
+	.string	"_IO_read_ptr"
+.LASF41:
+	.string	"__pad5"
+.LASF49:
+	.string	"String"
+.LASF54:
+	.string	"osInit"
+.LASF4:
+	.string	"unsigned int"
+.LASF36:
+	.string	"_offset"
+.LASF42:
+	.string	"_mode"
+.LASF28:
+	.string	"_chain"
+.LASF12:
+	.string	"float"
+.LASF24:
+	.string	"_IO_save_base"
+.LASF2:
+	.string	"unsigned char"
+.LASF40:
+	.string	"_freeres_buf"
+.LASF50:
+	.string	"testIntEqual"
+.LASF5:
+	.string	"long unsigned int"
+.LASF3:
+	.string	"short unsigned int"
+.LASF26:
+	.string	"_IO_save_end"
+.LASF57:
+	.string	"_IO_lock_t"
+.LASF60:
+	.string	"testFloatSizes"
+.LASF27:
+	.string	"_markers"
+.LASF51:
+	.string	"showTest"
+.LASF13:
+	.string	"double"
+.LASF7:
+	.string	"short int"
+.LASF44:
+	.string	"FILE"
+.LASF30:
+	.string	"_flags2"
+.LASF31:
+	.string	"_old_offset"
+.LASF35:
+	.string	"_lock"
+.LASF45:
+	.string	"_IO_marker"
+.LASF32:
+	.string	"_cur_column"
+.LASF11:
+	.string	"char"
+.LASF55:
+	.string	"GNU C99 12.2.0 -mtune=generic -march=x86-64 -g -O0 -std=c99 -fasynchronous-unwind-tables"
+.LASF46:
+	.string	"_IO_codecvt"
+.LASF29:
+	.string	"_fileno"
+.LASF22:
+	.string	"_IO_buf_base"
+.LASF53:
+	.string	"dbInit"
+.LASF33:
+	.string	"_vtable_offset"
+.LASF37:
+	.string	"_codecvt"
+.LASF39:
+	.string	"_freeres_list"
+.LASF9:
+	.string	"__off_t"
+.LASF43:
+	.string	"_unused2"
+.LASF48:
+	.string	"long long int"
+.LASF59:
+	.string	"fprintf"
+.LASF61:
+	.string	"floatTestSuite"
+.LASF21:
+	.string	"_IO_write_end"
+.LASF52:
+	.string	"dbFini"
+.LASF25:
+	.string	"_IO_backup_base"
+.LASF15:
+	.string	"_flags"
+.LASF38:
+	.string	"_wide_data"
+.LASF8:
+	.string	"long int"
+.LASF20:
+	.string	"_IO_write_ptr"
+.LASF58:
+	.string	"dbOut"
+.LASF47:
+	.string	"_IO_wide_data"
+.LASF6:
+	.string	"signed char"
+.LASF18:
+	.string	"_IO_read_base"
+.LASF34:
+	.string	"_shortbuf"
+	.section	.debug_line_str,"MS",@progbits,1
+.LASF0:
+	.string	"test/test_float.c"
+.LASF1:
+	.string	"/repo/aldor/aldor/src"
+	.ident	"GCC: (Debian 12.2.0-14+deb12u1) 12.2.0"
+	.section	.note.GNU-stack,"",@progbits
